@@ -52,12 +52,31 @@ def main():
                 demo = "mkdir -p tests && cp SEED_OUT/%s/seed_*.rs tests/ && %s" % (sid, demo)
         if "tests/" in demo and "mkdir" not in demo:
             demo = "mkdir -p tests && " + demo
-        rc0, out0 = sh(demo, cwd=wt)
-        rec["demo_pristine"] = {"cmd": demo, "rc": rc0, "tail": out0[-600:]}
+        prev = meta.get("evaluation") or {}
+        recheck_only = os.environ.get("SEED_EVAL_RECHECK_ONLY") == "1" and prev.get("confirmed") is not None
+        if recheck_only:
+            # the change was confirmed by an earlier evaluation (kept): only the checks are re-run
+            rc0 = (prev.get("demo_pristine") or {}).get("rc", 0)
+            rec["demo_pristine"] = prev.get("demo_pristine")
+            rec["reused_confirmation_from"] = prev.get("when")
+        else:
+            rc0, out0 = sh(demo, cwd=wt)
+            rec["demo_pristine"] = {"cmd": demo, "rc": rc0, "tail": out0[-600:]}
         rc, out = sh("git apply SEED_OUT/%s/patch.diff" % sid, cwd=wt)
         rec["apply_rc"] = rc
         if rc != 0:
             rec["error"] = "patch does not apply: " + out[-400:]
+        elif recheck_only:
+            rec["demo_patched"] = prev.get("demo_patched")
+            rec["suite_patched"] = prev.get("suite_patched")
+            rec["confirmed"] = prev.get("confirmed")
+            rec["checks"] = {}
+            for p in props:
+                t0 = time.time()
+                rcc, outc = sh("./check %s" % p, cwd=VERIF, env={"VERIF_REPO": wt}, timeout=7200)
+                lines = [l for l in outc.split("\n") if l.startswith("VIOLATION") or "failed obligation" in l
+                         or l.startswith("UNDECIDED") or l.startswith("OK ")]
+                rec["checks"][p] = {"rc": rcc, "seconds": round(time.time() - t0), "lines": lines[:12]}
         else:
             rc1, out1 = sh(demo, cwd=wt)
             rec["demo_patched"] = {"rc": rc1, "tail": out1[-900:]}
